@@ -33,3 +33,22 @@ Definition torn_file (day no : N) (t : torn) : mfile :=
   mkMF day no (firstn (t_k t) (log_of (t_items t))) (firstn (t_j t) (idx_of (t_ents t))).
 Definition cut_file (day no : N) (t : torn) : afile :=
   mkAF day no (firstn (t_n t) (t_items t)) (firstn (t_m t) (t_ents t)).
+
+(** a crash between the index entry of a new second and that second's first line: the writer
+    issues the 16 index bytes of a new second before the line.  As [torn_ok], except that the
+    index may also hold one more complete entry (number [t_m]) than the [t_m] entries whose lines
+    are complete; that dangling entry points at the end of the complete lines, and its numbers are
+    within u64.  [cut_file] still keeps the [t_m] entries whose lines are complete. *)
+Definition torn_ok2 (t : torn) : Prop :=
+  (t_n t <= length (t_items t))%nat /\ (t_m t <= length (t_ents t))%nat /\
+  (length (log_of (firstn (t_n t) (t_items t))) <= t_k t)%nat /\
+  (t_n t < length (t_items t) -> t_k t < length (log_of (firstn (S (t_n t)) (t_items t))))%nat /\
+  (t_n t = length (t_items t) -> t_k t = length (log_of (t_items t)))%nat /\
+  (((16 * t_m t <= t_j t < 16 * S (t_m t))%nat /\
+    (t_m t = length (t_ents t) -> t_j t = 16 * t_m t)%nat)
+   \/
+   ((t_m t < length (t_ents t))%nat /\
+    (16 * S (t_m t) <= t_j t < 16 * S (S (t_m t)))%nat /\
+    (S (t_m t) = length (t_ents t) -> t_j t = 16 * S (t_m t))%nat /\
+    snd (nth (t_m t) (t_ents t) (0, 0)) = N.of_nat (length (log_of (firstn (t_n t) (t_items t)))) /\
+    fst (nth (t_m t) (t_ents t) (0, 0)) < U64 /\ snd (nth (t_m t) (t_ents t) (0, 0)) < U64)).
